@@ -7,6 +7,7 @@ package nut11
 // ParseP2PKTags and PublicKeys are deterministic functions of the (immutable)
 // tag list: assumed, named tags.parse / nut11.keysof in the specs.
 //@ func ParseP2PKTags
+//@   ensures @cashuerr [C20] r1 != nil ==> iscashu(r1) && !internalerr(r1)
 //@   tags C12 C13
 //@   safety C06 C12
 //@   assumes err == nil <==> tags.ok(tags)
@@ -22,6 +23,7 @@ package nut11
 //@   loop 3 invariant 1 <= i && j == i - 1 && len(refundKeys) == len(tag) - 1 && p2pkTags.NSigs >= 0 && p2pkTags.NSigs <= 127 && (forall k :: 0 <= k && k < j ==> refundKeys[k] != nil) && (forall k :: 0 <= k && k < len(p2pkTags.Pubkeys) ==> p2pkTags.Pubkeys[k] != nil) && (forall k :: 0 <= k && k < len(p2pkTags.Refund) ==> p2pkTags.Refund[k] != nil)
 
 //@ func ParsePublicKey
+//@   ensures @cashuerr [C20] r1 != nil ==> iscashu(r1) && !internalerr(r1)
 //@   tags C12
 //@   safety C06 C12
 //@   ensures @ok err == nil <==> (hexok(key) && pt.parseok(hexdec(key)))
@@ -71,6 +73,7 @@ package nut11
 //@   ensures @bounded [C12,C13] result ==> Nsigs <= len(pubkeys) || Nsigs <= 0
 
 //@ func PublicKeys
+//@   ensures @cashuerr [C20] r1 != nil ==> iscashu(r1) && !internalerr(r1)
 //@   tags C12
 //@   safety C06 C12
 //@   assumes err == nil <==> nut11.keysok(secret)
@@ -80,6 +83,7 @@ package nut11
 //@ macro expired(t) = t.Locktime > 0 && clk.now > t.Locktime
 
 //@ func VerifyP2PKLockedProof
+//@   ensures @cashuerr [C20] r0 != nil ==> iscashu(r0) && !internalerr(r0)
 //@   tags C12
 //@   safety C06 C12
 //@   modifies hvs.last, hvs.calls, hvs.fails, clk.now
